@@ -211,7 +211,7 @@ def bounded(tier, seed):
     from rtc import harness as H, ops
     import numpy as np
     P = H.real()
-    run = H.Run('C05', tier, seed, budget_s=80 if tier == 'quick' else 600)
+    run = H.Run('C05', tier, seed, budget_s=45 if tier == 'quick' else 600)
     # --- 1. every catalogue operation leaves its inputs unchanged, result does not alias --------
     for si, spec in enumerate(H.file_specs(tier, seed)):
         for nm, ok, ap in ops.OPS:
@@ -247,6 +247,24 @@ def bounded(tier, seed):
                         pass
                 return H.same_snapshot(before, H.snapshot(f))
             run.case('C05:result-not-aliased:' + nm, (si, nm), t_alias)
+    # time queries on IOAPI-style files, including the -635 sentinel date
+    for dates in ([2019365, 2020001, 2020002], [-635, 2000001, 2000002], [2000001, -635, -635]):
+        f = P.PseudoNetCDFFile()
+        f.createDimension('TSTEP', 3); f.createDimension('VAR', 2); f.createDimension('DATE-TIME', 2)
+        tf = np.zeros((3, 2, 2), 'i')
+        tf[:, :, 0] = np.array(dates)[:, None]
+        tf[:, :, 1] = np.array([0, 10000, 20000])[:, None]
+        f.createVariable('TFLAG', 'i', ('TSTEP', 'VAR', 'DATE-TIME'), values=tf)
+        f.TSTEP = 10000
+        before = H.snapshot(f)
+        for b in (False, True):
+            def tq(f=f, b=b, before=before):
+                try:
+                    f.getTimes(bounds=b)
+                except Exception:
+                    pass
+                return H.same_snapshot(before, H.snapshot(f))
+            run.case('C05:input-unchanged:getTimes on TFLAG', (dates, b), tq)
     # chained masks on already-masked receivers, argument files of binary operators
     for si, spec in enumerate(H.file_specs(tier, seed)):
         f0 = H.make_file(P, spec)
